@@ -187,6 +187,8 @@ def run(ctx):
                 vs.append({"transforms": True})
             if idx % 3 == 1:
                 vs.append({"transforms": "scaled"})
+            if idx % 3 == 2 and case["edims"]:
+                vs.append({"transforms": ("in-only", "out-only")[(idx // 3) % 2]})      # only one of the two transforms
             if any(nm in eng.DIAGONAL for nm in env_names) and idx % 2 == 0:
                 vs.append({"rank3": True})
             if idx % 5 == 0 and case["edims"]:
